@@ -34,6 +34,13 @@ open Paloma.Abi Paloma.SignBytes Paloma.Attest
                      implementation shows as a differing line)
                 | <addr>;err;<n> | <addr>;other;<n>
       → as `attest`, with proc=<0|1 per distinct tx hash in order of first appearance>
+  gov addother | rmother | rmself | addself                                → ok
+        (governance over the SET of supported chains, `Model/Attest.lean` `Gov`: `AddSupportForNewChain` /
+         `RemoveSupportForChain` of ANOTHER chain reference id, or of this chain itself.  `rmself` deletes
+         the chain's queued messages; none of the four touches the used-transaction set, which belongs
+         to the evm module and not to a chain)
+  used <hash,…>                                                            → <0|1,…>
+        (is each of these transactions in the used-transaction set — `isTxProcessed`)
   attest <id> none | err | other | tx <hash> <status|-> <data> <deployLog 0|1>
       → <class> q=<ids> proc=<0|1|-> fx=<effects> active=<n> deps=<…> live=<snapshot ids listing the
         chain, sorted, with multiplicity> uact=<active user deployments, sorted>
@@ -208,6 +215,19 @@ def step (d : State) (args : List String) : State × String :=
   | ["rm", id] =>
     match parseNat? id with
     | some id => ({ d with s := Paloma.Attest.step d.s (.remove id) }, "ok")
+    | none => (d, "bad-op")
+  | ["gov", g] =>
+    match (match g with
+      | "addother" => some Gov.addOther
+      | "rmother" => some Gov.removeOther
+      | "rmself" => some Gov.removeThis
+      | "addself" => some Gov.addThis
+      | _ => none) with
+    | some g => ({ d with s := Paloma.Attest.stepE d.s (.gov g) }, "ok")
+    | none => (d, "bad-op")
+  | ["used", hs] =>
+    match parseNatList? hs with
+    | some hs => (d, showList (hs.map fun h => if d.s.processed.contains h then "1" else "0"))
     | none => (d, "bad-op")
   | "attestev" :: id :: shares :: total :: evs =>
     match parseNat? id, parsePairList? shares, parseNat? total, evs.mapM parseEvidence? with
